@@ -117,6 +117,18 @@ CLAIMED = {
                      "resolution of strategy hooks, must-pass-through (reset after re-mark) on the CFG",
         "design_ref": "DESIGN.md section 3, C05",
     },
+    "C10": {
+        "text": "Decides structural clauses D1-D4 of C10: Lagrange evaluation and normalisation multiply over all knots i != index with "
+                "one shared range and filter (cardinality is structural), the restricted variant is 0 outside its support; the "
+                "collocation matrix has row = grid point / column = basis function, the pole values are read from and the surpluses "
+                "written back to the same positions, and both solve branches solve that system; the QR factors are defined on exactly "
+                "the paths that use them (guard-correlated definite assignment); integrate stores and the interpolation routines look "
+                "up surpluses under the same key, storing the integrator's surpluses after the integration. Unique solvability and "
+                "reproduction of polynomials are numerical and NOT decided.",
+        "technique": "sibling agreement of filtered product loops, index dataflow by value terms, guard-correlated definite "
+                     "assignment, key-term equality",
+        "design_ref": "DESIGN.md section 3, C10",
+    },
     "C13": {
         "text": "Decides structural clauses D1-D5 of C13 on the driver loop and the error estimators: exactly one history entry per "
                 "evaluation before any stop test; the two documented stop conditions as normalised relations between the error and "
